@@ -343,7 +343,8 @@ pub fn write_float_nonscientific<const FORMAT: u128>(
     } else {
         bytes[cursor] = b'0';
         cursor += 1;
-        digit_count += 1;
+        // All integer digits, including the zeros past truncated digits, count.
+        digit_count = digit_count.max(integer_length) + 1;
     }
 
     // Determine if we need to add more trailing zeros.
